@@ -281,6 +281,25 @@ example : (render (parenMin (.bin .sub sp0 (v "a") (.bin .sub sp0 (v "b") (v "c"
     = [.ident "a".toList, .minus, .lparen, .ident "b".toList, .minus, .ident "c".toList, .rparen] := by
   simp [parenMin, wrap, T.level, BinOp.level, render, v, tokOf]
 
+/-- `parseProgram_render` applies to real source text: `a -b⏎- c` (blanks and a newline between the
+    tokens) lexes to the tokens of the derivation `(a - b) - c` with these positions, so the text parses
+    to the left-leaning tree. -/
+private def abc : T :=
+  .bin .sub ⟨⟨1, 0⟩, ⟨1, 1⟩⟩
+    (.bin .sub ⟨⟨0, 2⟩, ⟨0, 3⟩⟩ (.ident ⟨⟨0, 0⟩, ⟨0, 1⟩⟩ ['a']) (.ident ⟨⟨0, 3⟩, ⟨0, 4⟩⟩ ['b']))
+    (.ident ⟨⟨1, 2⟩, ⟨1, 3⟩⟩ ['c'])
+
+private def abcText : Str := ['a', ' ', '-', 'b', '\n', '-', ' ', 'c']
+
+example : parseProgram listSrc abcText = .ok (embed abc) := by
+  have h : (tokenize abcText).toOption.map (·.toks) = some (render abc) := by decide
+  match hl : tokenize abcText with
+  | .error e => simp [hl, Except.toOption] at h
+  | .ok l =>
+    have ht : l.toks = render abc := by simpa [hl, Except.toOption] using h
+    exact parseProgram_render abc (by simp [abc, T.Wf, T.level, BinOp.level]) abcText l hl ht
+      (by simp [Fits, abc, abcText, nest, fuel, maxNesting, parseFuel])
+
 end Examples
 
 end C02
